@@ -57,25 +57,25 @@ Proof.
 Qed.
 
 
-Lemma on_packet_response : forall s la src k, is_response k ->
-  on_packet s la src k = on_response s k (succ_of k).
-Proof. intros s la src k [H|H]; unfold on_packet, succ_of; rewrite H; reflexivity. Qed.
+Lemma on_packet_response : forall s sk la src k, is_response k ->
+  on_packet s sk la src k = on_response s k (succ_of k).
+Proof. intros s sk la src k [H|H]; unfold on_packet, succ_of; rewrite H; reflexivity. Qed.
 
 (* a success / error response changes nothing unless its transaction id is pending; if it is,
    it changes nothing that is protected, removes exactly that entry from the pending map and
    hands the verdict to the waiting check *)
-Theorem response_needs_txn : forall s la src k, is_response k ->
-  (lookup (k_tx k) (a_pending s) = None -> on_packet s la src k = (s, [])) /\
+Theorem response_needs_txn : forall s sk la src k, is_response k ->
+  (lookup (k_tx k) (a_pending s) = None -> on_packet s sk la src k = (s, [])) /\
   (forall t, lookup (k_tx k) (a_pending s) = Some t ->
-     let s' := fst (on_packet s la src k) in
+     let s' := fst (on_packet s sk la src k) in
      protected s' = protected s /\
      a_role s' = a_role s /\ a_locals s' = a_locals s /\ a_latching s' = a_latching s /\ a_rounds s' = a_rounds s /\
      lookup (k_tx k) (a_pending s') = None /\
      (forall id, id <> k_tx k -> lookup id (a_pending s') = lookup id (a_pending s)) /\
      a_done s' = a_done s ++ [(t, succ_of k && is_binding k)] /\
-     snd (on_packet s la src k) = [ODeliver (k_tx k) (succ_of k)]).
+     snd (on_packet s sk la src k) = [ODeliver (k_tx k) (succ_of k)]).
 Proof.
-  intros s la src k Hr. rewrite (on_packet_response s la src k Hr). unfold on_response. split.
+  intros s sk la src k Hr. rewrite (on_packet_response s sk la src k Hr). unfold on_response. split.
   - intros ->. reflexivity.
   - intros t ->. cbn [fst snd]. unfold protected, set_txns. cbn.
     repeat split.
@@ -88,13 +88,13 @@ Example response_premises_satisfiable :
   let s := launch (init IceRole_Controlled false []) t in
   let k := mkPkt 1 257 true 7 false false false false false 0 0 in
   is_response k /\ lookup (k_tx k) (a_pending s) = Some t /\
-  a_done (fst (on_packet s (1, 1) (9, 9) k)) = [(t, true)].
+  a_done (fst (on_packet s KUdp (1, 1) (9, 9) k)) = [(t, true)].
 Proof. vm_compute. repeat split. left. reflexivity. Qed.
 
 (* ------------------------------------------------------------------ requests: exact effects *)
-Lemma on_packet_request : forall s la src k, classify k = CReq ->
-  on_packet s la src k = on_request s la src k.
-Proof. intros s la src k H. unfold on_packet. rewrite H. reflexivity. Qed.
+Lemma on_packet_request : forall s sk la src k, classify k = CReq ->
+  on_packet s sk la src k = on_request s sk la src k.
+Proof. intros s sk la src k H. unfold on_packet. rewrite H. reflexivity. Qed.
 
 
 
@@ -104,10 +104,14 @@ Proof.
   destruct (addr_eqb (c_addr c) a); [reflexivity|]. cbn [orb]. exact IH.
 Qed.
 
-Lemma find_remote_app_unknown : forall rs a, known rs a = false -> find_remote (rs ++ [prflx a]) a = Some (prflx a).
+Lemma prflx_k_addr : forall sk a, c_addr (prflx_k sk a) = a.
+Proof. intros [] a; reflexivity. Qed.
+
+Lemma find_remote_app_unknown : forall rs sk a, known rs a = false ->
+  find_remote (rs ++ [prflx_k sk a]) a = Some (prflx_k sk a).
 Proof.
-  intros rs a. unfold known, find_remote. induction rs as [|c r IH]; cbn [existsb find app].
-  - intros _. cbn [prflx c_addr]. rewrite addr_eqb_refl. reflexivity.
+  intros rs sk a. unfold known, find_remote. induction rs as [|c r IH]; cbn [existsb find app].
+  - intros _. rewrite prflx_k_addr, addr_eqb_refl. reflexivity.
   - destruct (addr_eqb (c_addr c) a); cbn [orb]; [discriminate | exact IH].
 Qed.
 
@@ -119,29 +123,41 @@ Proof.
   - exact IH.
 Qed.
 
-(* the candidate the USE-CANDIDATE branch pairs with: always present after the learning step *)
-Lemma remote_after_learning : forall s src,
-  exists r, find_remote (remotes_after s src) src = Some r /\ c_addr r = src /\
+(* the candidate the nomination branches pair with: always present after the learning step *)
+Lemma remote_after_learning : forall s sk src,
+  exists r, find_remote (remotes_after s sk src) src = Some r /\ c_addr r = src /\
             (known (a_remotes s) src = true -> find_remote (a_remotes s) src = Some r) /\
-            (known (a_remotes s) src = false -> r = prflx src).
+            (known (a_remotes s) src = false -> r = prflx_k sk src).
 Proof.
-  intros s src. unfold remotes_after. destruct (known (a_remotes s) src) eqn:K.
+  intros s sk src. unfold remotes_after. destruct (known (a_remotes s) src) eqn:K.
   - destruct (known_find _ _ K) as [r [Hf Ha]]. exists r. rewrite app_nil_r. repeat split; auto. discriminate.
-  - exists (prflx src). rewrite find_remote_app_unknown by exact K. repeat split; auto. discriminate.
+  - exists (prflx_k sk src). rewrite find_remote_app_unknown by exact K. rewrite prflx_k_addr. repeat split; auto. discriminate.
 Qed.
 
-(* E1..E4: everything an inbound request does -- whatever its credentials *)
+Ltac req_cases s la src k :=
+  destruct s as [role st lat locs rems sel nom pend dn rounds];
+  unfold remotes_after, sel_after_latch, on_request, learn, latch, nominate, tcp_nominate, tcp_select, latch_applies,
+         set_remotes, set_selected, set_state, set_nominated;
+  cbn [a_role a_state a_latching a_locals a_remotes a_selected a_nominated a_pending a_done a_rounds];
+  destruct (known rems src) eqn:K;
+    cbn [fst snd a_role a_state a_latching a_locals a_remotes a_selected a_nominated a_pending a_done a_rounds];
+  destruct lat; cbn [andb];
+  destruct sel as [p|]; cbn [option_map];
+  try destruct ((port (c_addr (p_remote p)) =? port src) && negb (ip (c_addr (p_remote p)) =? ip src));
+  cbn [fst snd a_role a_state a_latching a_locals a_remotes a_selected a_nominated a_pending a_done a_rounds].
+
+(* datagram sockets -- E1..E4: everything an inbound request does, whatever its credentials *)
 Theorem request_effects_exact : forall s la src k, classify k = CReq ->
-  let s' := fst (on_packet s la src k) in
+  let s' := fst (on_packet s KUdp la src k) in
   (* untouched *)
   a_pending s' = a_pending s /\ a_done s' = a_done s /\ a_rounds s' = a_rounds s /\
   a_role s' = a_role s /\ a_locals s' = a_locals s /\ a_latching s' = a_latching s /\
   (* E1 the Binding response, E2 peer-reflexive learning (+ a check round is requested) *)
-  snd (on_packet s la src k) = OSend src (k_tx k) :: (if known (a_remotes s) src then [] else [ORunChecks]) /\
-  a_remotes s' = remotes_after s src /\
+  snd (on_packet s KUdp la src k) = OSend src (k_tx k) :: (if known (a_remotes s) src then [] else [ORunChecks]) /\
+  a_remotes s' = remotes_after s KUdp src /\
   (* E3 latching retarget, E4 USE-CANDIDATE on the controlled side *)
   (if k_use_candidate k && role_guard (a_role s) then
-     match find_local (a_locals s) la, find_remote (remotes_after s src) src with
+     match find_local (a_locals s) la, find_remote (remotes_after s KUdp src) src with
      | Some l, Some r =>
          a_state s' = St_Connected /\ a_nominated s' = Some true /\
          a_selected s' = (if should_select (sel_after_latch s src) (a_nominated s) (a_role s) (mkPair l r)
@@ -150,17 +166,8 @@ Theorem request_effects_exact : forall s la src k, classify k = CReq ->
      end
    else a_state s' = a_state s /\ a_nominated s' = a_nominated s /\ a_selected s' = sel_after_latch s src).
 Proof.
-  intros s la src k Hc. rewrite (on_packet_request s la src k Hc).
-  destruct s as [role st lat locs rems sel nom pend dn rounds].
-  unfold remotes_after, sel_after_latch, on_request, learn, latch, nominate, latch_applies,
-         set_remotes, set_selected, set_state, set_nominated.
-  cbn [a_role a_state a_latching a_locals a_remotes a_selected a_nominated a_pending a_done a_rounds].
-  destruct (known rems src) eqn:K;
-    cbn [fst snd a_role a_state a_latching a_locals a_remotes a_selected a_nominated a_pending a_done a_rounds].
-  all: destruct lat; cbn [andb].
-  all: destruct sel as [p|]; cbn [option_map].
-  all: try destruct ((port (c_addr (p_remote p)) =? port src) && negb (ip (c_addr (p_remote p)) =? ip src)).
-  all: cbn [fst snd a_role a_state a_latching a_locals a_remotes a_selected a_nominated a_pending a_done a_rounds].
+  intros s la src k Hc. rewrite (on_packet_request s KUdp la src k Hc).
+  req_cases s la src k.
   all: destruct (k_use_candidate k && role_guard role).
   all: cbn [fst snd a_role a_state a_latching a_locals a_remotes a_selected a_nominated a_pending a_done a_rounds].
   all: try rewrite app_nil_r.
@@ -171,30 +178,81 @@ Proof.
   all: repeat split; reflexivity.
 Qed.
 
-(* the credential facts (and the PRIORITY attribute) play no part whatsoever *)
+Lemma find_local_tcp_cases : forall ls la,
+  (exists l, find_local_tcp1 ls la = Some l /\ find_local_tcp ls la = Some l) \/
+  (find_local_tcp1 ls la = None /\ find_local_tcp ls la = find_local_tcp2 ls la).
+Proof.
+  intros ls la. unfold find_local_tcp. destruct (find_local_tcp1 ls la) as [l|]; [left; exists l; auto | right; auto].
+Qed.
 
-Theorem auth_blind : forall s la src k hu uo hm mo pr,
-  on_packet s la src (with_auth k hu uo hm mo pr) = on_packet s la src k.
+(* ICE-TCP streams -- E1..E3 as above; E4': ANY request completes nomination on a controlled
+   agent that is not yet nominated (USE-CANDIDATE is not even looked at) *)
+Theorem request_effects_exact_tcp : forall s la src k, classify k = CReq ->
+  let s' := fst (on_packet s KTcp la src k) in
+  a_pending s' = a_pending s /\ a_done s' = a_done s /\ a_rounds s' = a_rounds s /\
+  a_role s' = a_role s /\ a_locals s' = a_locals s /\ a_latching s' = a_latching s /\
+  snd (on_packet s KTcp la src k) = OSend src (k_tx k) :: (if known (a_remotes s) src then [] else [ORunChecks]) /\
+  a_remotes s' = remotes_after s KTcp src /\
+  (if tcp_applies s KTcp then
+     a_nominated s' = Some true /\
+     match find_local_tcp (a_locals s) la, find_remote (remotes_after s KTcp src) src with
+     | Some l, Some r => a_state s' = St_Connected /\ a_selected s' = Some (mkPair l r)
+     | _, _ => a_state s' = a_state s /\ a_selected s' = sel_after_latch s src
+     end
+   else a_state s' = a_state s /\ a_nominated s' = a_nominated s /\ a_selected s' = sel_after_latch s src).
+Proof.
+  intros s la src k Hc. rewrite (on_packet_request s KTcp la src k Hc).
+  unfold tcp_applies, find_local_tcp.
+  req_cases s la src k.
+  all: rewrite role_guard_controlled.
+  all: destruct role; cbn [IceRole_eqb negb andb].
+  all: try rewrite andb_false_r.
+  all: destruct nom as [b|]; cbn [is_some negb andb].
+  all: try rewrite app_nil_r.
+  all: try (destruct (find_local_tcp1 locs la) as [l|]).
+  all: try (destruct (find_remote _ src) as [r|]).
+  all: try (destruct (find_local_tcp2 locs la) as [l2|]).
+  all: cbn [fst snd a_role a_state a_latching a_locals a_remotes a_selected a_nominated a_pending a_done a_rounds].
+  all: try (destruct (k_use_candidate k)); cbn [andb].
+  all: cbn [fst snd a_role a_state a_latching a_locals a_remotes a_selected a_nominated a_pending a_done a_rounds].
+  all: repeat split; reflexivity.
+Qed.
+
+(* what both socket kinds share, in a form the history proofs use *)
+Lemma request_common : forall s sk la src k, classify k = CReq ->
+  let s' := fst (on_packet s sk la src k) in
+  a_pending s' = a_pending s /\ a_done s' = a_done s /\ a_rounds s' = a_rounds s /\
+  a_role s' = a_role s /\ a_locals s' = a_locals s /\ a_latching s' = a_latching s /\
+  a_remotes s' = remotes_after s sk src.
+Proof.
+  intros s [] la src k Hc.
+  - destruct (request_effects_exact s la src k Hc) as (H1 & H2 & H3 & H4 & H5 & H6 & _ & H8 & _). cbn zeta. auto 10.
+  - destruct (request_effects_exact_tcp s la src k Hc) as (H1 & H2 & H3 & H4 & H5 & H6 & _ & H8 & _). cbn zeta. auto 10.
+Qed.
+
+(* the credential facts (and the PRIORITY attribute) play no part whatsoever *)
+Theorem auth_blind : forall s sk la src k hu uo hm mo pr,
+  on_packet s sk la src (with_auth k hu uo hm mo pr) = on_packet s sk la src k.
 Proof. intros. reflexivity. Qed.
 
-Theorem request_keeps_transactions : forall s la src k, classify k = CReq ->
-  let s' := fst (on_packet s la src k) in
+Theorem request_keeps_transactions : forall s sk la src k, classify k = CReq ->
+  let s' := fst (on_packet s sk la src k) in
   a_pending s' = a_pending s /\ a_done s' = a_done s /\ a_rounds s' = a_rounds s.
 Proof.
-  intros s la src k Hc. destruct (request_effects_exact s la src k Hc) as (H1 & H2 & H3 & _).
+  intros s sk la src k Hc. destruct (request_common s sk la src k Hc) as (H1 & H2 & H3 & _).
   cbn zeta. auto.
 Qed.
 
-
+(* ------------------------------------------------------------------ F18: the property fails on the faithful model *)
 Theorem request_auth_witness :
   exists s la src k,
     (* a controlled agent in Checking that knows nobody *)
     a_role s = IceRole_Controlled /\ a_state s = St_Checking /\ a_remotes s = [] /\
     a_selected s = None /\ a_nominated s = None /\
-    (* one request, no credentials at all, USE-CANDIDATE *)
+    (* one request on its UDP socket, no credentials at all, USE-CANDIDATE *)
     classify k = CReq /\ k_has_username k = false /\ k_has_mi k = false /\ authenticated k = false /\
-    k_use_candidate k = true /\ mutation_class s src k = true /\
-    let s' := fst (on_packet s la src k) in
+    k_use_candidate k = true /\ mutation_class s KUdp src k = true /\
+    let s' := fst (on_packet s KUdp la src k) in
     a_remotes s' = [prflx src] /\
     a_selected s' = Some (mkPair f18_local (prflx src)) /\
     a_nominated s' = Some true /\ a_state s' = St_Connected.
@@ -202,28 +260,47 @@ Proof.
   exists f18_agent, (2130706433, 50000), f18_stranger, f18_request. vm_compute. repeat split.
 Qed.
 
-(* ------------------------------------------------------------------ outside the listed class nothing protected changes *)
-Theorem request_inert_outside_class : forall s la src k, classify k = CReq ->
-  mutation_class s src k = false ->
-  protected (fst (on_packet s la src k)) = protected s.
+(* the ICE-TCP form needs no USE-CANDIDATE: any request on an accepted stream does it *)
+Theorem request_auth_witness_tcp :
+  exists s la src k,
+    a_role s = IceRole_Controlled /\ a_state s = St_Checking /\ a_remotes s = [] /\
+    a_selected s = None /\ a_nominated s = None /\
+    classify k = CReq /\ k_has_username k = false /\ k_has_mi k = false /\ authenticated k = false /\
+    k_use_candidate k = false /\ mutation_class s KTcp src k = true /\
+    let s' := fst (on_packet s KTcp la src k) in
+    a_remotes s' = [prflx_k KTcp src] /\
+    a_selected s' = Some (mkPair f18_local_tcp (prflx_k KTcp src)) /\
+    a_nominated s' = Some true /\ a_state s' = St_Connected.
 Proof.
-  intros s la src k Hc Hm. unfold mutation_class in Hm.
-  apply orb_false_iff in Hm as [Hm Huc]. apply orb_false_iff in Hm as [Hk Hl].
-  apply negb_false_iff in Hk.
-  destruct (request_effects_exact s la src k Hc) as (_ & _ & _ & _ & _ & _ & _ & Hr & He).
-  cbn zeta in *. rewrite Huc in He. destruct He as (Hs & Hn & Hsel).
-  unfold protected. rewrite Hr, Hs, Hn, Hsel. unfold remotes_after, sel_after_latch. rewrite Hk, Hl, app_nil_r. reflexivity.
+  exists f18_agent_tcp, (2130706433, 50001), f18_stranger, f18_request_plain. vm_compute. repeat split.
 Qed.
 
-Theorem unauth_inert_outside_class : forall s la src k, classify k = CReq -> authenticated k = false ->
-  mutation_class s src k = false ->
-  protected (fst (on_packet s la src k)) = protected s.
-Proof. intros s la src k Hc _ Hm. apply request_inert_outside_class; assumption. Qed.
+(* ------------------------------------------------------------------ outside the listed class nothing protected changes *)
+Theorem request_inert_outside_class : forall s sk la src k, classify k = CReq ->
+  mutation_class s sk src k = false ->
+  protected (fst (on_packet s sk la src k)) = protected s.
+Proof.
+  intros s sk la src k Hc Hm. unfold mutation_class in Hm.
+  apply orb_false_iff in Hm as [Hm Htcp]. apply orb_false_iff in Hm as [Hm Huc].
+  apply orb_false_iff in Hm as [Hk Hl]. apply negb_false_iff in Hk.
+  destruct sk.
+  - destruct (request_effects_exact s la src k Hc) as (_ & _ & _ & _ & _ & _ & _ & Hr & He).
+    cbn zeta in *. unfold uc_applies in Huc. rewrite Huc in He. destruct He as (Hs & Hn & Hsel).
+    unfold protected. rewrite Hr, Hs, Hn, Hsel. unfold remotes_after, sel_after_latch. rewrite Hk, Hl, app_nil_r. reflexivity.
+  - destruct (request_effects_exact_tcp s la src k Hc) as (_ & _ & _ & _ & _ & _ & _ & Hr & He).
+    cbn zeta in *. rewrite Htcp in He. destruct He as (Hs & Hn & Hsel).
+    unfold protected. rewrite Hr, Hs, Hn, Hsel. unfold remotes_after, sel_after_latch. rewrite Hk, Hl, app_nil_r. reflexivity.
+Qed.
+
+Theorem unauth_inert_outside_class : forall s sk la src k, classify k = CReq -> authenticated k = false ->
+  mutation_class s sk src k = false ->
+  protected (fst (on_packet s sk la src k)) = protected s.
+Proof. intros s sk la src k Hc _ Hm. apply request_inert_outside_class; assumption. Qed.
 
 Example outside_class_satisfiable :
   let s := fst (step (fst (step (init IceRole_Controlled true [f18_local]) (ApiAddRemote (prflx f18_stranger)))) ApiStart) in
   classify (mkPkt 0 1 true 5 false false false false false 0 0) = CReq /\
-  mutation_class s f18_stranger (mkPkt 0 1 true 5 false false false false false 0 0) = false.
+  mutation_class s KUdp f18_stranger (mkPkt 0 1 true 5 false false false false false 0 0) = false.
 Proof. vm_compute. split; reflexivity. Qed.
 
 (* the first disjunct of the class is always a change of the protected state *)
@@ -232,12 +309,12 @@ Proof.
   intros A l x H. apply (f_equal (@length A)) in H. rewrite app_length in H. cbn in H. lia.
 Qed.
 
-Theorem learning_is_mutation : forall s la src k, classify k = CReq -> known (a_remotes s) src = false ->
-  a_remotes (fst (on_packet s la src k)) = a_remotes s ++ [prflx src] /\
-  protected (fst (on_packet s la src k)) <> protected s.
+Theorem learning_is_mutation : forall s sk la src k, classify k = CReq -> known (a_remotes s) src = false ->
+  a_remotes (fst (on_packet s sk la src k)) = a_remotes s ++ [prflx_k sk src] /\
+  protected (fst (on_packet s sk la src k)) <> protected s.
 Proof.
-  intros s la src k Hc Hk.
-  destruct (request_effects_exact s la src k Hc) as (_ & _ & _ & _ & _ & _ & _ & Hr & _).
+  intros s sk la src k Hc Hk.
+  destruct (request_common s sk la src k Hc) as (_ & _ & _ & _ & _ & _ & Hr).
   cbn zeta in Hr. unfold remotes_after in Hr. rewrite Hk in Hr. split; [exact Hr|].
   unfold protected. rewrite Hr. intros H. inversion H as [[H1 H2 H3 H4]]. exact (app_one_neq _ _ _ H1).
 Qed.
@@ -245,44 +322,50 @@ Qed.
 (* ------------------------------------------------------------------ the priority-upgrade rule *)
 (* after nomination a request can move the selection only to a pair of strictly higher priority
    (latching aside): relies on the translated comparison `upgrade_cmp` *)
-Theorem upgrade_monotone : forall s la src k p p', classify k = CReq ->
+Theorem upgrade_monotone : forall s sk la src k p p', classify k = CReq ->
   latch_applies s src = false -> is_some (a_nominated s) = true ->
-  a_selected s = Some p -> a_selected (fst (on_packet s la src k)) = Some p' ->
+  a_selected s = Some p -> a_selected (fst (on_packet s sk la src k)) = Some p' ->
   p' = p \/ pair_prio p (a_role s) < pair_prio p' (a_role s).
 Proof.
-  intros s la src k p p' Hc Hl Hn Hs Hs'.
-  destruct (request_effects_exact s la src k Hc) as (_ & _ & _ & _ & _ & _ & _ & _ & He).
-  cbn zeta in *. unfold sel_after_latch in He. rewrite Hl, Hs in He.
-  destruct (k_use_candidate k && role_guard (a_role s)).
-  - destruct (find_local (a_locals s) la) as [l|]; [destruct (find_remote (remotes_after s src) src) as [r|]|].
-    + destruct He as (_ & _ & Hsel). rewrite Hsel in Hs'. unfold should_select in Hs'. rewrite Hn in Hs'.
-      destruct (same_pair p (mkPair l r)); [left; congruence|].
-      unfold upgrade_cmp in Hs'. destruct (pair_prio (mkPair l r) (a_role s) >? pair_prio p (a_role s)) eqn:G.
-      * inversion Hs'; subst. right. apply Z.gtb_lt in G. lia.
-      * left; congruence.
+  intros s sk la src k p p' Hc Hl Hn Hs Hs'. destruct sk.
+  - destruct (request_effects_exact s la src k Hc) as (_ & _ & _ & _ & _ & _ & _ & _ & He).
+    cbn zeta in *. unfold sel_after_latch in He. rewrite Hl, Hs in He.
+    destruct (k_use_candidate k && role_guard (a_role s)).
+    + destruct (find_local (a_locals s) la) as [l|]; [destruct (find_remote (remotes_after s KUdp src) src) as [r|]|].
+      * destruct He as (_ & _ & Hsel). rewrite Hsel in Hs'. unfold should_select in Hs'. rewrite Hn in Hs'.
+        destruct (same_pair p (mkPair l r)); [left; congruence|].
+        unfold upgrade_cmp in Hs'. destruct (pair_prio (mkPair l r) (a_role s) >? pair_prio p (a_role s)) eqn:G.
+        -- inversion Hs'; subst. right. apply Z.gtb_lt in G. lia.
+        -- left; congruence.
+      * destruct He as (_ & _ & Hsel). left; congruence.
+      * destruct He as (_ & _ & Hsel). left; congruence.
     + destruct He as (_ & _ & Hsel). left; congruence.
-    + destruct He as (_ & _ & Hsel). left; congruence.
-  - destruct He as (_ & _ & Hsel). left; congruence.
+  - destruct (request_effects_exact_tcp s la src k Hc) as (_ & _ & _ & _ & _ & _ & _ & _ & He).
+    cbn zeta in *. unfold tcp_applies in He. rewrite Hn in He. cbn [negb] in He. rewrite andb_false_r in He.
+    destruct He as (_ & _ & Hsel). unfold sel_after_latch in Hsel. rewrite Hl, Hs in Hsel. left; congruence.
 Qed.
 
-(* a controlling agent ignores USE-CANDIDATE: a request only answers, learns and (with latching) retargets *)
-Theorem controlling_ignores_use_candidate : forall s la src k, classify k = CReq ->
+(* a controlling agent ignores USE-CANDIDATE (and TCP nomination): a request only answers, learns
+   and (with latching) retargets *)
+Theorem controlling_ignores_use_candidate : forall s sk la src k, classify k = CReq ->
   a_role s = IceRole_Controlling ->
-  let s' := fst (on_packet s la src k) in
+  let s' := fst (on_packet s sk la src k) in
   a_state s' = a_state s /\ a_nominated s' = a_nominated s /\ a_selected s' = sel_after_latch s src.
 Proof.
-  intros s la src k Hc Hr.
-  destruct (request_effects_exact s la src k Hc) as (_ & _ & _ & _ & _ & _ & _ & _ & He).
-  cbn zeta in *. rewrite Hr, role_guard_controlled in He. cbn [IceRole_eqb] in He.
-  rewrite andb_false_r in He. exact He.
+  intros s sk la src k Hc Hr. destruct sk.
+  - destruct (request_effects_exact s la src k Hc) as (_ & _ & _ & _ & _ & _ & _ & _ & He).
+    cbn zeta in *. rewrite Hr, role_guard_controlled in He. cbn [IceRole_eqb] in He.
+    rewrite andb_false_r in He. exact He.
+  - destruct (request_effects_exact_tcp s la src k Hc) as (_ & _ & _ & _ & _ & _ & _ & _ & He).
+    cbn zeta in *. unfold tcp_applies in He. rewrite Hr in He. cbn [IceRole_eqb andb] in He. exact He.
 Qed.
 
 (* indications, undecodable STUN and non-STUN datagrams leave the agent as it is *)
-Theorem non_request_inert : forall s la src k,
+Theorem non_request_inert : forall s sk la src k,
   classify k = CInd \/ classify k = CBad \/ classify k = CData ->
-  fst (on_packet s la src k) = s /\ sends (snd (on_packet s la src k)) = [].
+  fst (on_packet s sk la src k) = s /\ sends (snd (on_packet s sk la src k)) = [].
 Proof.
-  intros s la src k [H|[H|H]]; unfold on_packet; rewrite H; split; reflexivity.
+  intros s sk la src k [H|[H|H]]; unfold on_packet; rewrite H; split; reflexivity.
 Qed.
 
 Lemma classify_data : forall k, stun_first_byte_lt <= k_b0 k -> classify k = CData.
@@ -292,36 +375,36 @@ Proof.
 Qed.
 
 (* ------------------------------------------------------------------ the guarded variant (specification, not the code) *)
-Theorem guarded_rejects : forall s la src k, classify k = CReq -> authenticated k = false ->
-  on_packet_guarded s la src k = (s, [OReject src (k_tx k)]).
-Proof. intros s la src k Hc Ha. unfold on_packet_guarded. rewrite Hc, Ha. reflexivity. Qed.
+Theorem guarded_rejects : forall s sk la src k, classify k = CReq -> authenticated k = false ->
+  on_packet_guarded s sk la src k = (s, [OReject src (k_tx k)]).
+Proof. intros s sk la src k Hc Ha. unfold on_packet_guarded. rewrite Hc, Ha. reflexivity. Qed.
 
-Theorem guarded_agrees : forall s la src k, (classify k = CReq -> authenticated k = true) ->
-  on_packet_guarded s la src k = on_packet s la src k.
+Theorem guarded_agrees : forall s sk la src k, (classify k = CReq -> authenticated k = true) ->
+  on_packet_guarded s sk la src k = on_packet s sk la src k.
 Proof.
-  intros s la src k H. unfold on_packet_guarded. destruct (classify k) eqn:Hc; try reflexivity.
+  intros s sk la src k H. unfold on_packet_guarded. destruct (classify k) eqn:Hc; try reflexivity.
   rewrite (H eq_refl). unfold on_packet. rewrite Hc. reflexivity.
 Qed.
 
 (* the full property, on the guarded variant: (1) a request without valid credentials changes
    nothing at all and is not answered with a Binding success; (2) a response acts only through a
    pending transaction, consuming exactly it, and touches nothing protected *)
-Theorem guarded_sound : forall s la src k,
+Theorem guarded_sound : forall s sk la src k,
   (classify k = CReq -> authenticated k = false ->
-     fst (on_packet_guarded s la src k) = s /\ sends (snd (on_packet_guarded s la src k)) = []) /\
+     fst (on_packet_guarded s sk la src k) = s /\ sends (snd (on_packet_guarded s sk la src k)) = []) /\
   (is_response k ->
-     protected (fst (on_packet_guarded s la src k)) = protected s /\
-     (lookup (k_tx k) (a_pending s) = None -> on_packet_guarded s la src k = (s, [])) /\
+     protected (fst (on_packet_guarded s sk la src k)) = protected s /\
+     (lookup (k_tx k) (a_pending s) = None -> on_packet_guarded s sk la src k = (s, [])) /\
      (forall t, lookup (k_tx k) (a_pending s) = Some t ->
-        lookup (k_tx k) (a_pending (fst (on_packet_guarded s la src k))) = None /\
+        lookup (k_tx k) (a_pending (fst (on_packet_guarded s sk la src k))) = None /\
         (forall id, id <> k_tx k ->
-           lookup id (a_pending (fst (on_packet_guarded s la src k))) = lookup id (a_pending s)))).
+           lookup id (a_pending (fst (on_packet_guarded s sk la src k))) = lookup id (a_pending s)))).
 Proof.
-  intros s la src k. split.
-  - intros Hc Ha. rewrite (guarded_rejects s la src k Hc Ha). split; reflexivity.
-  - intros Hr. assert (Hg : on_packet_guarded s la src k = on_packet s la src k).
+  intros s sk la src k. split.
+  - intros Hc Ha. rewrite (guarded_rejects s sk la src k Hc Ha). split; reflexivity.
+  - intros Hr. assert (Hg : on_packet_guarded s sk la src k = on_packet s sk la src k).
     { apply guarded_agrees. intros Hc. destruct Hr as [Hr|Hr]; congruence. }
-    rewrite Hg. destruct (response_needs_txn s la src k Hr) as [Hnone Hsome]. repeat split.
+    rewrite Hg. destruct (response_needs_txn s sk la src k Hr) as [Hnone Hsome]. repeat split.
     + destruct (lookup (k_tx k) (a_pending s)) as [t|] eqn:L.
       * destruct (Hsome t eq_refl) as (Hp & _). exact Hp.
       * rewrite (Hnone eq_refl). reflexivity.
@@ -343,11 +426,11 @@ Proof. intros. unfold run_with. apply fold_left_app. Qed.
 
 Lemma unsolicited_step : forall s o, unsolicited s o = true -> step s o = (s, []).
 Proof.
-  intros s o. destruct o as [la src k| | | | | | | |]; cbn [unsolicited]; try discriminate.
+  intros s o. destruct o as [sk la src k| | | | | | | |]; cbn [unsolicited]; try discriminate.
   intros H. unfold step, step_with.
   destruct (classify k) eqn:Hc; try discriminate;
     (destruct (lookup (k_tx k) (a_pending s)) eqn:L; [discriminate|]);
-    apply (proj1 (response_needs_txn s la src k ltac:(unfold is_response; auto)) L).
+    apply (proj1 (response_needs_txn s sk la src k ltac:(unfold is_response; auto)) L).
 Qed.
 
 Theorem unsolicited_history : forall ops s, run s ops = run_skip s ops.
@@ -366,9 +449,9 @@ Proof.
   induction ops as [|o r IH]; intros s; [reflexivity|].
   cbn [filter]. destruct (unauth_req_op o) eqn:U; cbn [negb].
   - unfold run_guarded. rewrite run_with_cons. fold run_guarded.
-    destruct o as [la src k| | | | | | | |]; cbn [unauth_req_op] in U; try discriminate.
+    destruct o as [sk la src k| | | | | | | |]; cbn [unauth_req_op] in U; try discriminate.
     destruct (classify k) eqn:Hc; try discriminate. apply negb_true_iff in U.
-    cbn [step_with]. rewrite (guarded_rejects s la src k Hc U). cbn [fst]. apply IH.
+    cbn [step_with]. rewrite (guarded_rejects s sk la src k Hc U). cbn [fst]. apply IH.
   - unfold run_guarded. rewrite !run_with_cons. fold run_guarded. apply IH.
 Qed.
 
@@ -408,11 +491,11 @@ Proof.
   assert (Hsame : txns_launched (pre ++ [o]) s).
   { split; [intros t Ht; apply Hmono, Hp; exact Ht | intros t v Ht; apply Hmono, (Hd t v); exact Ht]. }
   destruct Hsame as [Hp' Hd'].
-  destruct o as [la src k|t0|id|r|r| |c|p|rl]; unfold step; cbn [step_with fst].
+  destruct o as [sk la src k|t0|id|r|r| |c|p|rl]; unfold step; cbn [step_with fst].
   - destruct (classify k) eqn:Hc.
     + unfold on_packet; rewrite Hc; cbn [fst]. split; assumption.
     + unfold on_packet; rewrite Hc; cbn [fst]. split; assumption.
-    + destruct (request_keeps_transactions s la src k Hc) as (H1 & H2 & _). cbn zeta in *.
+    + destruct (request_keeps_transactions s sk la src k Hc) as (H1 & H2 & _). cbn zeta in *.
       split; [intros t Ht; rewrite H1 in Ht | intros t v Ht; rewrite H2 in Ht]; eauto.
     + unfold on_packet; rewrite Hc. unfold on_response.
       destruct (lookup (k_tx k) (a_pending s)) as [t1|] eqn:L; cbn [fst]; [|split; assumption].
@@ -462,11 +545,11 @@ Qed.
 
 
 Lemma faithful_refines : refines (fun _ => true) on_packet.
-Proof. intros s la src k. right. split; auto. Qed.
+Proof. intros s sk la src k. right. split; auto. Qed.
 
 Lemma guarded_refines : refines authenticated on_packet_guarded.
 Proof.
-  intros s la src k. unfold on_packet_guarded. destruct (classify k) eqn:Hc; try (right; split; [reflexivity | congruence]).
+  intros s sk la src k. unfold on_packet_guarded. destruct (classify k) eqn:Hc; try (right; split; [reflexivity | congruence]).
   destruct (authenticated k) eqn:A.
   - right. split; [unfold on_packet; rewrite Hc; reflexivity | auto].
   - left. reflexivity.
@@ -500,13 +583,13 @@ Proof.
   intros rs a r H. unfold find_remote in H. apply find_some in H as [_ H]. apply addr_eqb_eq. exact H.
 Qed.
 
-Lemma request_remotes_origin : forall s la src k c, classify k = CReq ->
-  In c (a_remotes (fst (on_packet s la src k))) -> In c (a_remotes s) \/ c_addr c = src.
+Lemma request_remotes_origin : forall s sk la src k c, classify k = CReq ->
+  In c (a_remotes (fst (on_packet s sk la src k))) -> In c (a_remotes s) \/ c_addr c = src.
 Proof.
-  intros s la src k c Hc H.
-  destruct (request_effects_exact s la src k Hc) as (_ & _ & _ & _ & _ & _ & _ & Hr & _).
+  intros s sk la src k c Hc H.
+  destruct (request_common s sk la src k Hc) as (_ & _ & _ & _ & _ & _ & Hr).
   cbn zeta in Hr. rewrite Hr in H. unfold remotes_after in H. apply in_app_or in H as [H|H]; [left; exact H|].
-  destruct (known (a_remotes s) src); [contradiction|]. destruct H as [H|[]]. subst. right. reflexivity.
+  destruct (known (a_remotes s) src); [contradiction|]. destruct H as [H|[]]. subst. right. apply prflx_k_addr.
 Qed.
 
 Lemma sel_after_latch_origin : forall s src p, sel_after_latch s src = Some p ->
@@ -516,20 +599,28 @@ Proof.
   destruct (a_selected s) as [q|]; cbn [option_map] in H; [|discriminate]. inversion H; subst. right. reflexivity.
 Qed.
 
-Lemma request_selected_origin : forall s la src k p, classify k = CReq ->
-  a_selected (fst (on_packet s la src k)) = Some p -> a_selected s = Some p \/ c_addr (p_remote p) = src.
+Lemma request_selected_origin : forall s sk la src k p, classify k = CReq ->
+  a_selected (fst (on_packet s sk la src k)) = Some p -> a_selected s = Some p \/ c_addr (p_remote p) = src.
 Proof.
-  intros s la src k p Hc H.
-  destruct (request_effects_exact s la src k Hc) as (_ & _ & _ & _ & _ & _ & _ & _ & He).
-  cbn zeta in He. destruct (k_use_candidate k && role_guard (a_role s)).
-  - destruct (find_local (a_locals s) la) as [l|]; [destruct (find_remote (remotes_after s src) src) as [r|] eqn:F|].
-    + destruct He as (_ & _ & Hsel). rewrite Hsel in H.
-      destruct (should_select _ _ _ _).
-      * inversion H; subst. right. cbn [p_remote]. exact (find_remote_addr _ _ _ F).
-      * apply sel_after_latch_origin. exact H.
+  intros s sk la src k p Hc H. destruct sk.
+  - destruct (request_effects_exact s la src k Hc) as (_ & _ & _ & _ & _ & _ & _ & _ & He).
+    cbn zeta in He. destruct (k_use_candidate k && role_guard (a_role s)).
+    + destruct (find_local (a_locals s) la) as [l|]; [destruct (find_remote (remotes_after s KUdp src) src) as [r|] eqn:F|].
+      * destruct He as (_ & _ & Hsel). rewrite Hsel in H.
+        destruct (should_select _ _ _ _).
+        -- inversion H; subst. right. cbn [p_remote]. exact (find_remote_addr _ _ _ F).
+        -- apply sel_after_latch_origin. exact H.
+      * destruct He as (_ & _ & Hsel). rewrite Hsel in H. apply sel_after_latch_origin. exact H.
+      * destruct He as (_ & _ & Hsel). rewrite Hsel in H. apply sel_after_latch_origin. exact H.
     + destruct He as (_ & _ & Hsel). rewrite Hsel in H. apply sel_after_latch_origin. exact H.
+  - destruct (request_effects_exact_tcp s la src k Hc) as (_ & _ & _ & _ & _ & _ & _ & _ & He).
+    cbn zeta in He. destruct (tcp_applies s KTcp).
+    + destruct He as (_ & He).
+      destruct (find_local_tcp (a_locals s) la) as [l|]; [destruct (find_remote (remotes_after s KTcp src) src) as [r|] eqn:F|].
+      * destruct He as (_ & Hsel). rewrite Hsel in H. inversion H; subst. right. cbn [p_remote]. exact (find_remote_addr _ _ _ F).
+      * destruct He as (_ & Hsel). rewrite Hsel in H. apply sel_after_latch_origin. exact H.
+      * destruct He as (_ & Hsel). rewrite Hsel in H. apply sel_after_latch_origin. exact H.
     + destruct He as (_ & _ & Hsel). rewrite Hsel in H. apply sel_after_latch_origin. exact H.
-  - destruct He as (_ & _ & Hsel). rewrite Hsel in H. apply sel_after_latch_origin. exact H.
 Qed.
 
 Lemma successes_In : forall d r nom acc p, In p (successes r nom d acc) ->
@@ -625,18 +716,18 @@ Proof.
       * apply filter_In in H as [H _]. eauto.
 Qed.
 
-Lemma Inv_on_packet : forall T s la src k, Inv T s ->
-  Inv (T ++ match classify k with CReq => [src] | _ => [] end) (fst (on_packet s la src k)).
+Lemma Inv_on_packet : forall T s sk la src k, Inv T s ->
+  Inv (T ++ match classify k with CReq => [src] | _ => [] end) (fst (on_packet s sk la src k)).
 Proof.
-  intros T s la src k HI. destruct (classify k) eqn:Hc.
+  intros T s sk la src k HI. destruct (classify k) eqn:Hc.
   - unfold on_packet; rewrite Hc; cbn [fst]. rewrite app_nil_r. exact HI.
   - unfold on_packet; rewrite Hc; cbn [fst]. rewrite app_nil_r. exact HI.
   - (* request *)
-    destruct (request_effects_exact s la src k Hc) as (Hp & Hd & Hr & _).
+    destruct (request_common s sk la src k Hc) as (Hp & Hd & Hr & _).
     cbn zeta in *. destruct HI as [H1 H2 H3 H4 H5]. constructor.
-    + intros c H. apply (request_remotes_origin s la src k c Hc) in H as [H|H]; apply in_or_app;
+    + intros c H. apply (request_remotes_origin s sk la src k c Hc) in H as [H|H]; apply in_or_app;
         [left; eauto | right; left; auto].
-    + intros p H. apply (request_selected_origin s la src k p Hc) in H as [H|H]; apply in_or_app;
+    + intros p H. apply (request_selected_origin s sk la src k p Hc) in H as [H|H]; apply in_or_app;
         [left; eauto | right; left; auto].
     + intros t H. rewrite Hp in H. apply in_or_app; left; eauto.
     + intros t v H. rewrite Hd in H. apply in_or_app; left; eauto.
@@ -658,10 +749,10 @@ Lemma Inv_step : forall acc onp T s o, refines acc onp -> Inv T s -> env_ok_op s
   Inv (T ++ trusted_op acc o) (fst (step_with onp s o)).
 Proof.
   intros acc onp T s o Href HI Henv.
-  destruct o as [la src k|t0|id|r|r| |c|p|rl]; cbn [step_with fst trusted_op].
-  - destruct (Href s la src k) as [Hsame|[Heq Hacc]].
+  destruct o as [sk la src k|t0|id|r|r| |c|p|rl]; cbn [step_with fst trusted_op].
+  - destruct (Href s sk la src k) as [Hsame|[Heq Hacc]].
     + rewrite Hsame. eapply Inv_mono; [|exact HI]. apply incl_appl, incl_refl.
-    + rewrite Heq. pose proof (Inv_on_packet T s la src k HI) as H.
+    + rewrite Heq. pose proof (Inv_on_packet T s sk la src k HI) as H.
       destruct (classify k) eqn:Hc; try exact H. rewrite (Hacc eq_refl). exact H.
   - rewrite app_nil_r. cbn [env_ok_op] in Henv. destruct Henv as (c & Hc & Ha).
     destruct HI as [H1 H2 H3 H4 H5]. constructor; cbn; intros; eauto.
@@ -724,7 +815,7 @@ Proof. intros. apply (addresses_origin _ _ guarded_refines). assumption. Qed.
 (* the difference is real: in the F18 history the stranger's address is the selected remote
    address although it is not trusted in the authenticated sense *)
 Example f18_history_untrusted :
-  let ops := [ApiStart; Pkt (2130706433, 50000) f18_stranger f18_request] in
+  let ops := [ApiStart; Pkt KUdp (2130706433, 50000) f18_stranger f18_request] in
   let s := run (init IceRole_Controlled false [f18_local]) ops in
   option_map (fun p => c_addr (p_remote p)) (a_selected s) = Some f18_stranger /\
   trusted authenticated ops = [] /\
@@ -735,10 +826,10 @@ Proof. vm_compute. repeat split. Qed.
 Lemma mux_step_agent : forall m s o,
   snd (fst (mux_step (m, s) o)) = s \/ snd (fst (mux_step (m, s) o)) = fst (step s o).
 Proof.
-  intros m s o. destruct o as [la src k| | | | | | | |]; cbn [mux_step];
+  intros m s o. destruct o as [sk la src k| | | | | | | |]; cbn [mux_step];
     try (right; destruct (step s _); reflexivity).
   destruct (mux_route m src k) as [m' d]. destruct d.
-  - right. destruct (step s (Pkt la src k)); reflexivity.
+  - right. destruct (step s (Pkt sk la src k)); reflexivity.
   - left. reflexivity.
 Qed.
 
@@ -748,23 +839,23 @@ Theorem mux_history : forall ops m s, snd (mux_run (m, s) ops) = run s (mux_kept
 Proof.
   induction ops as [|o r IH]; intros m s; [reflexivity|].
   unfold mux_run. cbn [fold_left]. fold (mux_run (fst (mux_step (m, s) o)) r).
-  destruct o as [la src k|t|id|rd|rd| |c|p|rl]; cbn [mux_step mux_kept];
+  destruct o as [sk la src k|t|id|rd|rd| |c|p|rl]; cbn [mux_step mux_kept];
     try (destruct (step s _) as [s' out] eqn:E; cbn [fst]; rewrite IH; unfold run; rewrite run_with_cons;
          fold step; rewrite E; reflexivity).
   destruct (mux_route m src k) as [m' d]. destruct d.
-  - destruct (step s (Pkt la src k)) as [s' out] eqn:E. cbn [fst]. rewrite IH.
+  - destruct (step s (Pkt sk la src k)) as [s' out] eqn:E. cbn [fst]. rewrite IH.
     unfold run. rewrite run_with_cons. fold step. rewrite E. reflexivity.
   - cbn [fst]. apply IH.
 Qed.
 
 (* what the demux adds on top: a datagram from an unrecorded source reaches the agent only if
    it is a Binding request whose USERNAME names this session's ufrag *)
-Theorem mux_stranger_needs_ufrag : forall m s la src k,
+Theorem mux_stranger_needs_ufrag : forall m s sk la src k,
   mux_get m src = None ->
-  snd (fst (mux_step (m, s) (Pkt la src k))) <> s ->
+  snd (fst (mux_step (m, s) (Pkt sk la src k))) <> s ->
   mux_extracts k = true /\ k_ufrag k = 1 /\ classify k = CReq.
 Proof.
-  intros m s la src k Hg Hne. cbn [mux_step] in Hne. unfold mux_route in Hne.
+  intros m s sk la src k Hg Hne. cbn [mux_step] in Hne. unfold mux_route in Hne.
   destruct (mux_extracts k) eqn:E.
   - destruct (k_ufrag k =? 1) eqn:U.
     + apply Z.eqb_eq in U. repeat split; auto.
